@@ -41,7 +41,8 @@ def run(chk):
         "Expr::as_literal outside the stdlib are exactly the reviewed table (a new consumer in the compiler, e.g. lowering an operand to a literal, "
         "must be reviewed against closures that run more than once). R12h: who-may-produce — a `Details { value: .. }` with a value that is not "
         "`None` is constructed only at the reviewed producer sites (assignment of the right-hand side's constant, the closure Target variable, "
-        "Details::merge/clone); every other constructor (del, branch merges, deletions on external paths) stores `None`, i.e. invalidates. Undecided: "
+        "Details::merge/clone); every other constructor (del, branch merges, deletions on external paths) stores `None`, i.e. invalidates. R12i: a `Details` is never updated field-wise — its `type_def` is never assigned without its `value` "
+        "(a binding whose type changes keeps no constant from before the change). Undecided: "
         "constants through closures (upstream TODO #13782).")
     typestate.rule_mutator_pairing(chk, "R12a")
     typestate.rule_join_discipline(chk, "R12b")
@@ -196,6 +197,7 @@ def run(chk):
                           loc=("%s:%d" % (nb.file, nb.line)) if nb else None)
 
     rule_r12h(chk)
+    rule_r12i(chk)
 
 
 DETAILS = "compiler::type_def::Details"
@@ -235,3 +237,28 @@ def rule_r12h(chk):
                               "%s stores a compile-time constant (value sources: %s) although it is not one of the reviewed producers: a constant computed "
                               "outside the assignment path must be exactly what the run time will hold on every path (e.g. a deletion whose `compact` flag is "
                               "only known at run time)" % (n, srcs[:3]), detail=d, loc=d["at"])
+
+
+def rule_r12i(chk):
+    facts = chk.facts
+    rid = "R12i"
+    chk.rule(rid, "no field-wise write into a Details (type_def without value or vice versa)", floor=1)
+    hits = []
+    for n in facts.grep('"f":"type_def"'):
+        b = facts.body(n)
+        if b.kind in ("const", "static", "promoted"):
+            continue
+        for bi, si, st in b.iter_stmts():
+            proj = st["d"].get("p", [])
+            fl = [e for e in proj if isinstance(e, dict) and "f" in e]
+            if not fl or fl[-1]["f"] not in ("type_def", "value"):
+                continue
+            base_ty = b.local_ty(st["d"]["l"]) if len(fl) == 1 else (fl[-2].get("ty") or "")
+            if "type_def::Details" in base_ty:
+                hits.append((n, b, st))
+    chk.instance(rid, {"bodies_scanned": "all", "field_wise_writes": len(hits)}, ok=not hits)
+    for k, (n, b, st) in enumerate(hits):
+        chk.violation(rid, b.file, n, "Details updated field-wise #%d" % k,
+                      "%s assigns one field of a Details (line %s) and keeps the other: a variable whose type is replaced keeps the constant the compiler "
+                      "knew before (or the reverse), e.g. `ok = true; if .f == 1 { ok = false }; ok || \"x\"` is folded with the stale constant" % (n, st.get("ln")),
+                      detail={"fn": n, "line": st.get("ln")}, loc="%s:%s" % (b.file, st.get("ln")))
